@@ -49,7 +49,8 @@ Proof. exact spec_level_is_op_level. Qed.
 Print Assumptions op_levels_match_grammar.
 
 (* tree level, tokens: for every well-formed expression tree of the fragment (identifiers,
-   integers, regexps, member access, all 11 unary/update and 42 binary/assignment/comma operators)
+   integers, regexps, member access a.b and index access a[b], the conditional c ? y : n,
+   all 11 unary/update and 42 binary/assignment/comma operators)
    the tokens of what printExpr prints (parentheses chosen by level, the "**" and "??" operand
    rules) are parsed by the independent ECMA-262 precedence-climbing parser back to the tree,
    up to norm (left-nesting of comma chains, which the printer prints without parentheses) *)
